@@ -2,6 +2,7 @@ package reverseproxy
 
 import (
 	"context"
+	"errors"
 	"fmt"
 	"net"
 	"net/http"
@@ -79,6 +80,14 @@ func (s *Server) proxyRoute(c *gin.Context) {
 }
 
 func (s *Server) panicRoute(c *gin.Context, err any) {
+	if e, ok := err.(error); ok && errors.Is(e, http.ErrAbortHandler) {
+		// The reverse proxy aborts the handler when the upstream fails after
+		// the response has been started. Propagate the abort to net/http so
+		// it closes the connection, otherwise the partial response is
+		// completed and the client can't tell it was truncated.
+		panic(err)
+	}
+
 	s.logger.Error(
 		"handler panic",
 		zap.String("path", c.FullPath()),
